@@ -26,7 +26,10 @@
    pattern string in reader.py breaks a proof obligation.
 
    sect_ok is_curves is_param line u v p3 p4 d collects the section-dependent conditions:
-     ~Curves        : the line contains no "..";
+     ~Curves        : curves_plain line — the mnemonic-with-dots special case is not
+                      triggered: no non-blank character is followed by "..", or the first
+                      ".." is not before the last colon (C04_no_double_dot_plain: in
+                      particular when the line contains no ".." at all);
      not ~Parameter : the description has no ':' (the LAST colon of the line separates;
                       the value may contain any number of colons);
      ~Parameter     : every colon of the value is a clock colon (clock_colons v: followed,
@@ -40,12 +43,10 @@
      non-minute suffix) are not admitted in the value; a unit containing colons or a
      description containing colons is admitted only when the separator is set off by blanks
      on both sides.
-   * ~Curves lines that contain ".." anywhere (stronger exclusion than the DESIGN's "v
-     contains no .. and the text before the delimiter does not end in a non-blank followed
-     by .."): the name_with_dots pattern is not analysed.
-   * units that consist only of digits (e.g. "M.1000  v : d"): excluded by conf_unit (the
-     optional digits-blank group of the unit pattern then participates).  The documented
-     form "1000 lbf" is C04_numeric_unit.
+   * ~Curves lines on which the name_with_dots pattern is selected ([^ ].. before the last
+     colon): that pattern is not analysed.
+   * units that consist only of digits are covered by C04_digit_unit only with a colon-free
+     description (in ~Parameter "M.1000 : a:b" really parses differently: unit "1000 :").
    * lines without a colon (value_without_colon_delimiter).
    * \d is modelled as ASCII digits; white space as str.isspace(). *)
 From Coq Require Import List NArith Bool String.
@@ -98,11 +99,11 @@ Theorem C04_curves_parse : forall p0 mn p1 u p2 v p3 p4 d p5 : list N,
 Proof. exact curves_parse. Qed.
 
 (* 3. a line without a period before its first colon is NAME : VALUE, in every section kind
-   (the value may contain '.' and ':'; in ~Curves the line must not contain "..") *)
+   (the value may contain '.' and ':'; in ~Curves the dots special case must not trigger) *)
 Theorem C04_missing_period : forall (p0 nm p1 p4 v p5 : list N) (is_curves is_param : bool),
   blanks p0 && blanks p1 && blanks p4 && blanks p5 = true ->
   conf_name_np nm = true -> conf_text v = true ->
-  (is_curves = true -> no_double_dot (layout_np p0 nm p1 p4 v p5) = true) ->
+  (is_curves = true -> curves_plain (layout_np p0 nm p1 p4 v p5) = true) ->
   read_header_line (layout_np p0 nm p1 p4 v p5) is_curves is_param = Some (mkhl nm [] v []).
 Proof. exact missing_period. Qed.
 
@@ -119,6 +120,22 @@ Theorem C04_numeric_unit :
   = Some (mkhl mn (ds ++ [sp] ++ w) v d).
 Proof. exact numeric_unit_all. Qed.
 
+(* 4a. a unit made of digits only ("M.1000 : d", "M.1000   12.5 : d"): told apart from the
+   "1000 lbf" form by an empty value or at least two blanks before the value; description
+   colon-free, in ~Parameter only clock colons in the value *)
+Theorem C04_digit_unit :
+  forall (p0 mn p1 u p2 v p3 p4 d p5 : list N) (is_curves is_param : bool),
+  padding6 p0 p1 p2 p3 p4 p5 = true ->
+  conf_mnem mn = true -> conf_digit_unit u p2 v = true ->
+  conf_text v = true -> conf_text d = true -> value_set_off p2 v = true ->
+  sect_ok_plain is_curves is_param (layout p0 mn p1 u p2 v p3 p4 d p5) v d = true ->
+  read_header_line (layout p0 mn p1 u p2 v p3 p4 d p5) is_curves is_param = Some (mkhl mn u v d).
+Proof. exact digit_unit. Qed.
+
+(* a line without ".." never triggers the ~Curves special case *)
+Theorem C04_no_double_dot_plain : forall line, no_double_dot line = true -> curves_plain line = true.
+Proof. exact no_double_dot_plain. Qed.
+
 (* 5. instance, ~Parameter: clock-time colons in the value are not separators and the description may
    contain colons, when the separating colon is set off by a blank on both sides *)
 Theorem C04_param_time : forall (p0 mn p1 u p2 v p3 p4 d p5 : list N) (is_curves : bool),
@@ -127,7 +144,7 @@ Theorem C04_param_time : forall (p0 mn p1 u p2 v p3 p4 d p5 : list N) (is_curves
   value_set_off p2 v = true ->
   clock_colons v = true ->
   negb (is_nil p3) && negb (is_nil p4) = true ->
-  (is_curves = true -> no_double_dot (layout p0 mn p1 u p2 v p3 p4 d p5) = true) ->
+  (is_curves = true -> curves_plain (layout p0 mn p1 u p2 v p3 p4 d p5) = true) ->
   read_header_line (layout p0 mn p1 u p2 v p3 p4 d p5) is_curves true = Some (mkhl mn u v d).
 Proof. exact param_time. Qed.
 
@@ -139,7 +156,7 @@ Theorem C04_param_parse : forall (p0 mn p1 u p2 v p3 p4 d p5 : list N) (is_curve
   conf_mnem mn = true -> conf_unit u = true -> conf_text v = true -> conf_text d = true ->
   value_set_off p2 v = true ->
   clock_colons v = true -> in_str 58 u = false -> in_str 58 d = false ->
-  (is_curves = true -> no_double_dot (layout p0 mn p1 u p2 v p3 p4 d p5) = true) ->
+  (is_curves = true -> curves_plain (layout p0 mn p1 u p2 v p3 p4 d p5) = true) ->
   read_header_line (layout p0 mn p1 u p2 v p3 p4 d p5) is_curves true = Some (mkhl mn u v d).
 Proof. exact param_parse. Qed.
 
@@ -234,6 +251,23 @@ Example C04_ex_num_param :
                       ex_p4 (s2l "Max: tension") []) false true
   = Some (mkhl (s2l "TENS") (s2l "1000 lbf") [] (s2l "Max: tension")).
 Proof. vm_compute. split; reflexivity. Qed.
+Example C04_ex_digit_unit :
+  conf_digit_unit (s2l "1000") [32; 32] (s2l "12.5") = true /\
+  sect_ok_plain true true (layout [] (s2l "TENS") [] (s2l "1000") [32; 32] (s2l "12.5") [] [32] (s2l "max") [])
+                (s2l "12.5") (s2l "max") = true /\
+  read_header_line (layout [] (s2l "TENS") [] (s2l "1000") [32; 32] (s2l "12.5") [] [32] (s2l "max") []) false true
+  = Some (mkhl (s2l "TENS") (s2l "1000") (s2l "12.5") (s2l "max")) /\
+  conf_digit_unit (s2l "1000") [] [] = true /\
+  read_header_line (layout [] (s2l "TENS") [] (s2l "1000") [] [] [32] [32] (s2l "max") []) false false
+  = Some (mkhl (s2l "TENS") (s2l "1000") [] (s2l "max")).
+Proof. vm_compute. repeat split; reflexivity. Qed.
+(* ~Curves with ".." in the description only *)
+Example C04_ex_curves_dd_descr :
+  sect_ok true false (layout [] (s2l "GR") [] (s2l "API") [32] (s2l "1") [32] [32] (s2l "see a..b") [])
+          (s2l "API") (s2l "1") [32] [32] (s2l "see a..b") = true /\
+  read_header_line (layout [] (s2l "GR") [] (s2l "API") [32] (s2l "1") [32] [32] (s2l "see a..b") []) true false
+  = Some (mkhl (s2l "GR") (s2l "API") (s2l "1") (s2l "see a..b")).
+Proof. vm_compute. split; reflexivity. Qed.
 Example C04_ex_sweep_line : l2s (time_line 7 5) = "TIME.  07:05 23-JAN-2001 : Time: At Bottom".
 Proof. vm_compute. reflexivity. Qed.
 
@@ -243,6 +277,8 @@ Print Assumptions C04_main_parse.
 Print Assumptions C04_curves_parse.
 Print Assumptions C04_missing_period.
 Print Assumptions C04_numeric_unit.
+Print Assumptions C04_digit_unit.
+Print Assumptions C04_no_double_dot_plain.
 Print Assumptions C04_param_time.
 Print Assumptions C04_param_parse.
 Print Assumptions C04_param_time_sweep.
